@@ -150,6 +150,38 @@ func (f *frame) applyContract(ct *Contract, callee *ssa.Function, args []Val, st
 		mods := map[string]bool{}
 		for _, m := range ct.Modifies {
 			mods[m] = true
+			// pointee(<param>): the object an interface-typed (or pointer) argument points to, by its static type at the call site
+			if strings.HasPrefix(m, "pointee(") && strings.HasSuffix(m, ")") && site != nil {
+				pn := m[len("pointee(") : len(m)-1]
+				found := false
+				for i, n := range names {
+					if n != pn {
+						continue
+					}
+					ai := i
+					if callee == nil {
+						ai = i - 1 // interface / functype contracts: first name is the receiver
+					}
+					if ai >= 0 && ai < len(site.Common().Args) {
+						arg := site.Common().Args[ai]
+						var pt types.Type
+						if mi, ok := arg.(*ssa.MakeInterface); ok {
+							pt = mi.X.Type()
+						} else {
+							pt = arg.Type()
+						}
+						if p, ok := pt.Underlying().(*types.Pointer); ok {
+							for _, a := range locOfRef("?", p.Elem()).accs {
+								mods[a.mem] = true
+							}
+							found = true
+						}
+					}
+				}
+				if !found {
+					mods["*"] = true
+				}
+			}
 		}
 		keep = func(n string) bool {
 			if mods[n] {
